@@ -1,5 +1,6 @@
 import BreezyVerif.Model.C38
 import BreezyVerif.Lemmas.C38
+import BreezyVerif.Lemmas.C38B
 /-
 C38 — all git SHA-map cache backends answer identically.
 
@@ -269,5 +270,222 @@ def exStore : IdxStore :=
 example : exStore.allKeys.Nodup := by decide
 
 example : (IdxStore.reopen exStore.files.reverse).get ([4], [2], [3]) = some [8] := by decide
+
+/-! ### the index backend's files refine its policy; reopen at the level of the queries -/
+
+def exGroups : List (List Op) :=
+  [[.blob [1] [10] [20], .tree [2] [11] [20], .commit [20] (List.replicate 40 7) [2] none],
+   [.blob [1] [12] [21], .commit [21] (List.replicate 40 8) [2] (some [5])]]
+
+/-- **write-group scripts.**  Starting from an empty directory, ANY sequence of
+write groups (start_write_group, every `add_object` of every session through
+`IndexCacheUpdater`, commit_write_group) succeeds, leaves no builder open and
+never stores a key twice — the hypotheses of `reopen_id` always hold — and the
+store answers the three kinds of keys exactly as the flat index policy
+(`run .index`, the model the correspondence check compares with the real
+backend) does: the `git` node of a sha is the encoded FIRST entry recorded for
+it, the `blob` node is `lookup_blob_id`, the first 40 bytes of the `commit` node
+are `lookup_commit`. -/
+theorem index_store_refines (gs : List (List Op)) (hw : ∀ g ∈ gs, ∀ o ∈ g, o.wf = true) :
+    ∃ s, IdxStore.empty.runGroups gs = some s ∧ s.builder = none ∧ s.allKeys.Nodup ∧
+      (∀ sha, s.get (gitKey sha) = (firstRow (run .index St.empty gs.flatten) sha).map (fun r => encEntry r.2)) ∧
+      (∀ f r, s.get (blobKey f r) = blobId (run .index St.empty gs.flatten) (f, r)) ∧
+      (∀ r, (s.get (commitKey r)).map commitShaOf = commitId (run .index St.empty gs.flatten) r) := by
+  obtain ⟨s, h, hb, hn, hR⟩ := runGroups_inv IdxStore.empty St.empty gs hw rfl (by simp [IdxStore.empty, IdxStore.allKeys, keysOf])
+    refines_empty
+  exact ⟨s, h, hb, hn, hR.git, hR.blob, hR.commit⟩
+
+/-- **reopen, at the level of the queries.**  After any sequence of write
+groups, a new `IndexGitShaMap` on the directory — with the index files in ANY
+order — gives `lookup_git_sha` / `lookup_blob_id` / `lookup_commit` the same
+node values as before, namely those of the flat policy model. -/
+theorem index_reopen_answers (gs : List (List Op)) (hw : ∀ g ∈ gs, ∀ o ∈ g, o.wf = true) :
+    ∃ s, IdxStore.empty.runGroups gs = some s ∧
+      ∀ files', s.files.Perm files' →
+        (∀ sha, (IdxStore.reopen files').get (gitKey sha) =
+          (firstRow (run .index St.empty gs.flatten) sha).map (fun r => encEntry r.2)) ∧
+        (∀ f r, (IdxStore.reopen files').get (blobKey f r) = blobId (run .index St.empty gs.flatten) (f, r)) ∧
+        (∀ r, ((IdxStore.reopen files').get (commitKey r)).map commitShaOf =
+          commitId (run .index St.empty gs.flatten) r) := by
+  obtain ⟨s, h, hb, hn, hg, hbl, hc⟩ := index_store_refines gs hw
+  refine ⟨s, h, fun files' hp => ⟨fun sha => ?_, fun f r => ?_, fun r => ?_⟩⟩
+  · rw [reopen_id s hb hn files' hp]; exact hg sha
+  · rw [reopen_id s hb hn files' hp]; exact hbl f r
+  · rw [reopen_id s hb hn files' hp]; exact hc r
+
+example : (∀ g ∈ exGroups, ∀ o ∈ g, o.wf = true) ∧
+    ((IdxStore.empty.runGroups exGroups).map (fun s => (s.files.length, s.get (gitKey [1]), s.get (blobKey [12] [21]))))
+      = some (2, some (encEntry (.blob [10] [20])), some [1]) := by decide
+
+/-- in every state the index policy reaches, `lookup_git_sha` has at most the one
+entry of the first row recorded for the sha (so the `git` node above is the whole answer) -/
+theorem index_gitSha_first (ops : List Op) (sha : B) :
+    gitSha (run .index St.empty ops) sha = ((firstRow (run .index St.empty ops) sha).toList).map (·.2) := by
+  unfold gitSha firstRow
+  rw [filter_of_nodup_keys _ sha (run_index_nodup St.empty ops (by simp [St.empty]))]
+
+/-! ### exactness of the agreement condition (converses) -/
+
+/-- the first add that meets a recorded row with the same sha but another entry
+makes `lookup_git_sha` of that sha differ between the index policy and the
+specification, whatever was added before (as long as the earlier adds satisfied
+`okIndex`): the clause of `okIndex` about shas is necessary, not only sufficient -/
+theorem index_shared_sha_differs (pre : List Op) (o : Op) (hpre : okSeq okIndex St.empty pre = true)
+    (r : Row) (hr : r ∈ (run .dict St.empty pre).git) (hs : r.1 = o.sha) (hne : r ≠ o.row) :
+    gitSha (run .index St.empty (pre ++ [o])) o.sha ≠ gitSha (run .dict St.empty (pre ++ [o])) o.sha := by
+  have heq : run .index St.empty pre = run .dict St.empty pre := (backends_agree_partial St.empty pre).1 hpre
+  have hnd : ((run .dict St.empty pre).git.map (·.1)).Nodup := by
+    rw [← heq]; exact run_index_nodup St.empty pre (by simp [St.empty])
+  have hrun : ∀ b, run b St.empty (pre ++ [o]) = step b (run b St.empty pre) o := by
+    intro b; simp [run, List.foldl_append]
+  rw [hrun, hrun, heq]
+  -- dict: the new entry is there
+  have hd := (dict_model_laws (run .dict St.empty pre) o).1
+  -- index: the rows are unchanged, and hold only r for this sha
+  have hany : (run .dict St.empty pre).git.any (fun x => x.1 == o.row.1) = true := by
+    rw [List.any_eq_true]; exact ⟨r, hr, by simp [hs, Op.row]⟩
+  have hgit : (step .index (run .dict St.empty pre) o).git = (run .dict St.empty pre).git := by
+    rw [step_index_git]; simp [addIfNoSha, hany]
+  intro hcontra
+  rw [← hcontra] at hd
+  unfold gitSha at hd
+  rw [hgit, List.mem_map] at hd
+  obtain ⟨x, hx, hxe⟩ := hd
+  rw [List.mem_filter] at hx
+  -- x has sha o.sha, as r does; shas are unique, so x = r
+  have hxr : x = r := by
+    have h1 : x.1 = r.1 := by rw [hs]; simpa using hx.2
+    exact nodup_key_eq _ hnd x r hx.1 hr h1
+  apply hne
+  rw [← hxr]
+  cases x with
+  | mk xs xe =>
+    simp only at hxe
+    have : xs = o.sha := by simpa using hx.2
+    simp [Op.row, this, hxe]
+where
+  nodup_key_eq : ∀ (l : List Row), (l.map (·.1)).Nodup → ∀ x y, x ∈ l → y ∈ l → x.1 = y.1 → x = y
+    | [], _, _, _, hx, _, _ => by simp at hx
+    | z :: zs, hn, x, y, hx, hy, hk => by
+      simp only [List.map_cons, List.nodup_cons] at hn
+      simp only [List.mem_cons] at hx hy
+      rcases hx with rfl | hx <;> rcases hy with rfl | hy
+      · rfl
+      · exact absurd (List.mem_map.2 ⟨y, hy, hk.symm⟩) hn.1
+      · exact absurd (List.mem_map.2 ⟨x, hx, hk⟩) hn.1
+      · exact nodup_key_eq zs hn.2 x y hx hy hk
+
+/-- likewise the clause about keys: re-binding a blob key or a revision id to
+another sha makes `lookup_blob_id` / `lookup_commit` differ (the index keeps the
+first binding, the specification the last) -/
+theorem index_rebound_key_differs (pre : List Op) (hpre : okSeq okIndex St.empty pre = true) :
+    (∀ s s' f r, blobId (run .dict St.empty pre) (f, r) = some s' → s' ≠ s →
+      blobId (run .index St.empty (pre ++ [.blob s f r])) (f, r) ≠
+        blobId (run .dict St.empty (pre ++ [.blob s f r])) (f, r)) ∧
+    (∀ s s' rv t tm, commitId (run .dict St.empty pre) rv = some s' → s' ≠ s →
+      commitId (run .index St.empty (pre ++ [.commit rv s t tm])) rv ≠
+        commitId (run .dict St.empty (pre ++ [.commit rv s t tm])) rv) := by
+  have heq : run .index St.empty pre = run .dict St.empty pre := (backends_agree_partial St.empty pre).1 hpre
+  have hrun : ∀ b o, run b St.empty (pre ++ [o]) = step b (run b St.empty pre) o := by
+    intro b o; simp [run, List.foldl_append]
+  constructor
+  · intro s s' f r hget hne
+    rw [hrun, hrun, heq]
+    simp only [step, blobId] at hget ⊢
+    rw [alGet_alSet_same, alGet_alAddNew]
+    simp [hget, hne]
+  · intro s s' rv t tm hget hne
+    rw [hrun, hrun, heq]
+    simp only [step, commitId] at hget ⊢
+    rw [alGet_alSet_same, alGet_alAddNew]
+    simp [hget, hne]
+
+example : okSeq okIndex St.empty exOps = true ∧
+    ([1], Entry.blob [10] [20]) ∈ (run .dict St.empty exOps).git ∧
+    ([1], Entry.blob [10] [20]) ≠ (Op.blob [1] [12] [20]).row := by decide
+
+/-- for the sqlite policy: after any adds satisfying `okSqlite`, the first tree
+add whose sha is already recorded for another tree key makes `lookup_tree_id` of
+that older key fail, while the specification still answers it: the tree-sha
+clause of `okSqlite` is necessary -/
+theorem sqlite_shared_tree_sha_differs (pre : List Op) (hpre : okSeq okSqlite St.empty pre = true)
+    (s f r f' r' : B) (hk : (f', r') ≠ (f, r))
+    (hold : treeId .dict (run .dict St.empty pre) (f', r') = .found s) :
+    treeId .sqlite (run .sqlite St.empty (pre ++ [.tree s f r])) (f', r') = .missing ∧
+      treeId .dict (run .dict St.empty (pre ++ [.tree s f r])) (f', r') = .found s := by
+  have heq : run .sqlite St.empty pre = run .dict St.empty pre := (backends_agree_partial St.empty pre).2 hpre
+  have hrun : ∀ b, run b St.empty (pre ++ [.tree s f r]) = step b (run b St.empty pre) (.tree s f r) := by
+    intro b; simp [run, List.foldl_append]
+  have hn : ((run .dict St.empty pre).trees.map (·.1)).Nodup := run_dict_trees_nodup St.empty pre (by simp [St.empty])
+  have hget : alGet (run .dict St.empty pre).trees (f', r') = some s := by
+    simp only [treeId] at hold
+    cases h : alGet (run .dict St.empty pre).trees (f', r') with
+    | none => simp [h] at hold
+    | some x => simp only [h, TreeAns.found.injEq] at hold; rw [hold]
+  rw [hrun, hrun, heq]
+  generalize run .dict St.empty pre = st at hn hget
+  have hfun := alGet_entries_of_nodup st.trees (f', r') s hn hget
+  constructor
+  · simp only [treeId, step]
+    have : alGet (treesReplace s (f, r) st.trees) (f', r') = none := by
+      apply alGet_none_of_no_key
+      intro e he
+      unfold treesReplace at he
+      split at he
+      · rw [List.mem_filter] at he
+        have h2 := he.2
+        simp only [decide_eq_true_eq] at h2
+        rcases h2 with h | h
+        · rw [h]; exact fun e' => hk e'.symm
+        · exact fun e' => absurd (hfun e he.1 e') h.2
+      · rw [List.mem_append] at he
+        rcases he with he | he
+        · rw [List.mem_filter] at he
+          have h2 := he.2
+          simp only [decide_eq_true_eq] at h2
+          exact fun e' => absurd (hfun e he.1 e') h2.2
+        · simp only [List.mem_singleton] at he
+          rw [he]; exact fun e' => hk e'.symm
+    rw [this]
+  · simp only [treeId, step]
+    rw [alGet_alSet_other _ _ _ (fun e => hk e.symm)]
+    simp [hget]
+
+example : okSeq okSqlite St.empty [.tree [2] [11] [20]] = true ∧
+    treeId .dict (run .dict St.empty [.tree [2] [11] [20]]) ([11], [20]) = .found [2] ∧
+    (([11], [20]) : FKey) ≠ ([11], [21]) := by decide
+
+/-! ### the in-memory backend keeps blob and tree ids in ONE dict -/
+
+/-- `DictGitShaMap.lookup_blob_id` / `lookup_tree_id` read the shared
+`_by_fileid` (`sharedId`).  For a key no tree add uses, `lookup_blob_id` is the
+specification's blob map; for a key no blob add uses, `lookup_tree_id` is the
+specification's tree map — for every update sequence.  (Native histories never
+use one `(fileid, revision)` for both kinds.) -/
+theorem dict_shared_lookup_partial (ops : List Op) (k : FKey) :
+    ((∀ o ∈ ops, isTreeOp o = true → o.fkey ≠ some k) → sharedId ops k = blobId (run .dict St.empty ops) k) ∧
+    ((∀ o ∈ ops, (∃ s f r, o = .blob s f r) → o.fkey ≠ some k) →
+      (match sharedId ops k with | some s => TreeAns.found s | none => TreeAns.missing) =
+        treeId .dict (run .dict St.empty ops) k) := by
+  constructor
+  · intro h
+    rw [sharedId_no_tree ops k h, blobId_run_dict]
+    cases lastBlob ops k <;> rfl
+  · intro h
+    rw [sharedId_no_blob ops k h]
+    simp only [treeId, treeGet_run_dict]
+    cases lastTree ops k <;> rfl
+
+example : (∀ o ∈ exOps, isTreeOp o = true → o.fkey ≠ some ([10], [20])) ∧
+    sharedId exOps ([10], [20]) = some [1] := by decide
+
+/-- **witness**: a cross-kind query.  After recording a tree id the in-memory
+backend answers `lookup_blob_id` of that key with the tree's sha; the
+specification, the sqlite policy and the index policy all say KeyError -/
+theorem dict_cross_kind_witness :
+    sharedId [.tree [2] [11] [20]] ([11], [20]) = some [2] ∧
+    blobId (run .dict St.empty [.tree [2] [11] [20]]) ([11], [20]) = none ∧
+    blobId (run .sqlite St.empty [.tree [2] [11] [20]]) ([11], [20]) = none ∧
+    blobId (run .index St.empty [.tree [2] [11] [20]]) ([11], [20]) = none := by decide
 
 end BreezyVerif.C38
